@@ -1810,3 +1810,42 @@ Proof.
     eapply Forall_impl; [|exact PK]. intros pd [A|[A B]]; [left; exact A|right].
     split; [apply token_error_ctx; exact A|exact B].
 Qed.
+
+(* the warm-cache auth flow (cached token, then fresh token) refines its stateless specification,
+   for every context *)
+Lemma auth_do_tokw_at_refines_spec_c p cn bd sc tb tsc t0 :
+  wf_body bd -> replayable bd -> wf_body tb -> replayable tb ->
+  let a := auth_do_tokw_at p cn bd sc tb tsc t0 in
+  (aw_res a, aw_time a, attempts (aw_first a), attempts (aw_second a), attempts (aw_token a), attempts (aw_third a))
+  = spec_authw_at_c p cn bd sc tb tsc t0.
+Proof.
+  intros Hwf Hrep Hwt Hrt. unfold auth_do_tokw_at, spec_authw_at_c.
+  pose proof (round_trip_refines_spec_c_st p cn bd sc t0 (init_state bd) Hwf Hrep eq_refl) as E1. cbv zeta in E1.
+  destruct (round_trip_bodies_gen p cn bd sc 0%nat (init_state bd) t0 Hwf eq_refl) as (_ & S1 & N1).
+  cbn [skipn Nat.add] in S1, N1.
+  set (o1 := round_trip p cn bd (init_state bd) sc t0) in *.
+  destruct (spec_send_c p cn bd sc t0) as [[r1 t1] l1]. injection E1 as Er Et El. rewrite Er.
+  destruct (challenged r1); [|cbn [aw_res aw_time aw_first aw_second aw_token aw_third attempts]; congruence].
+  destruct (rewind_replayable bd (o_st o1) Hwf Hrep N1) as (st2 & Hrw & Hfresh). rewrite Hrw.
+  pose proof (round_trip_refines_spec_c_st p cn bd (o_script o1) (o_time o1) st2 Hwf Hrep Hfresh) as E2. cbv zeta in E2.
+  destruct (round_trip_bodies_gen p cn bd sc (length (attempts (o_trace o1))) st2 (o_time o1) Hwf Hfresh)
+    as (_ & S2 & N2).
+  rewrite <- S1 in S2, N2.
+  set (o2 := round_trip p cn bd st2 (o_script o1) (o_time o1)) in *.
+  rewrite S1, El, Et in E2.
+  destruct (spec_send_c p cn bd (skipn (length l1) sc) t1) as [[r2 t2] l2]. injection E2 as Er2 Et2 El2. rewrite Er2.
+  destruct (bearer_challenged r1 && unauthorized r2);
+    [|cbn [aw_res aw_time aw_first aw_second aw_token aw_third attempts]; congruence].
+  unfold fetch_token.
+  pose proof (round_trip_refines_spec_c_st p cn tb tsc (o_time o2) (init_state tb) Hwt Hrt eq_refl) as EK. cbv zeta in EK.
+  set (ok := round_trip p cn tb (init_state tb) tsc (o_time o2)) in *.
+  rewrite Et2 in EK. destruct (spec_send_c p cn tb tsc t2) as [[kr kt] kl]. injection EK as Kr Kt Kl.
+  cbn [k_ok k_res k_trace k_time]. rewrite Kr.
+  destruct (token_ok kr); [|cbn [aw_res aw_time aw_first aw_second aw_token aw_third attempts]; congruence].
+  destruct (rewind_replayable bd (o_st o2) Hwf Hrep N2) as (st3 & Hrw3 & Hfresh3). rewrite Hrw3.
+  cbn [aw_res aw_time aw_first aw_second aw_token aw_third].
+  pose proof (round_trip_refines_spec_c_st p cn bd (o_script o2) (o_time ok) st3 Hwf Hrep Hfresh3) as E3. cbv zeta in E3.
+  rewrite S2, El, El2, Kt in E3.
+  destruct (spec_send_c p cn bd (skipn (length l1 + length l2) sc) kt) as [[r3 t3] l3]. injection E3 as R3 T3 L3.
+  congruence.
+Qed.
